@@ -20,11 +20,16 @@ Judge(e) ==
     \cup
     (IF \A k \in DOMAIN e.seeks : CounterNeverDecreases(e.seeks[k].s, e.in.reps)
        THEN {} ELSE {"deduplicated-counter-never-decreases-after-seek"})
+    \cup
+    (IF \A k \in DOMAIN e.logs : CounterNeverDecreases(Received(e.logs[k]), e.in.reps)
+       THEN {} ELSE {"deduplicated-counter-never-decreases-for-a-seeking-reader"})
 
 (* Model conformance (never a verdict).  *)
+OpsOf(log) == [k \in DOMAIN log |-> [op |-> log[k].op, x |-> log[k].x]]
 Drift(e) == /\ e.in.drift /\ e.err = ""
             /\ \/ e.next # RunNext(e.in.reps, e.in.ctr)
                \/ \E k \in DOMAIN e.seeks : e.seeks[k].s # RunSeek(e.in.reps, e.in.ctr, e.seeks[k].x)
+               \/ \E k \in DOMAIN e.logs : e.logs[k] # RunOps(e.in.reps, e.in.ctr, OpsOf(e.logs[k]))
 
 VARIABLE l
 TraceInit == l = 1
